@@ -26,6 +26,7 @@ from hypothesis import strategies as st
 
 from vf.core import Discard, Violation, case_hash, drive, guarded, pymoca_frame, run_one
 from vf.gen import dae as D
+from vf.gen import expr as X
 
 ID = "C23"
 LEVEL = "exploration"
@@ -492,7 +493,10 @@ def check_case(ctx, case):
     env, der = D.make_env(m, rs)
     for name, val in b["consts"].items():
         env[name] = float(val)
-    ref = D.residual(m, m["eqs"], env, der)
+    try:
+        ref = D.residual(m, m["eqs"], env, der)
+    except X.Fragile as e:
+        raise Discard("fragile reference point: %s" % e)
     f = guarded(lambda: model.dae_residual_function, where="dae_residual_function")
     args = D.model_args(model, env, der, f)
     out = guarded(f.call, args, where="eval")
